@@ -418,5 +418,5 @@ func min(a, b int) int {
 }
 
 func TestC14(t *testing.T) {
-	drv.Main(t, drv.Driver{ID: "C14", Gen: gen14, Run: run14, CaseTimeout: 5 * time.Minute})
+	drv.Main(t, drv.Driver{ID: "C14", Gen: gen14, Run: run14, CaseTimeout: 30 * time.Minute})
 }
